@@ -7,6 +7,11 @@ BASELINE_OFF = ("cd /repo && cargo nextest run --workspace --no-fail-fast --tool
                 "--test-threads 8 --offline || (cd /repo && cargo test --workspace --no-fail-fast --offline)")
 
 CHECKS = {
+ "C03": dict(
+   technique="bounded-exhaustive + proptest payloads at every inlining position; oracle = independent dialect lexers/decoders (differential token-stream comparison against a benign reference payload) + SQLite engine read-back",
+   text="Exploration: every string over a 12/13-symbol quoting-relevant alphabet up to length 3 (quick) / 4 (thorough) at every text position of each backend, every char up to U+2FFF (quick) / all chars (thorough), all byte strings of length <= 2, and random Unicode text / chars / byte strings. The rendered statement must lex, under the engine's lexical rules, to the same token stream as a benign reference rendering with exactly one literal token whose decoded content equals the payload; SQLite literals are also read back through the real engine.",
+   note="MySQL (default sql_mode) and Postgres (standard_conforming_strings=on) lexical rules are transcribed from the manuals into the harness lexers; there is no MySQL/Postgres engine in the sandbox. SQLite 3.40.1 is the real engine.",
+   ref="DESIGN.md 4/C03"),
  "C16": dict(
    technique="bounded-exhaustive enumeration + proptest random/constructed inputs; oracle = progress/non-empty/concatenation invariants and by-construction token boundaries",
    text="Exploration: every string over a 16-symbol token-relevant alphabet up to length 4 (quick) / 6 (thorough) is enumerated, plus random Unicode strings and strings constructed from quoted segments whose token boundaries are known by construction. Exhaustive within the stated bound only; no claim beyond it.",
